@@ -3,7 +3,7 @@ from common import *
 import lexgen
 
 PID = "C19"
-TARGETS = ["Run.vo", "Lists_proofs.vo"]
+TARGETS = ["Run.vo", "Lists_proofs.vo", "NonVacuous/C19.vo"]
 IMPORTS = "From VF Require Import Base Show Gen_Errors Lexer Grammar Lists ListGrammar Run."
 ALLOWED_AXIOMS = []
 PROFILES = ["debug", "release"]
